@@ -53,17 +53,17 @@ func (s *solo) checkPeerQ(q *peerQ) {
 		legit := q.mustFail || s.closed || (q.finSent && q.finT < q.retT) || (q.pipeOn != nil && s.pipeTargetUnavailable(q))
 		if !legit {
 			sig := "C06/call-not-delivered"
-			if strings.Contains(m.ExcReason, "call on null client") && s.arrivedWhileReturning(q) {
+			if s.chainedOnQueued(q) {
+				// server/answer.go: a call pipelined on a call that went
+				// through a server answer queue is applied to the wrong
+				// answer (queueCaller basis off by one)
+				sig = "C06/call-not-delivered/pipeline-on-queued-call"
+			} else if strings.Contains(m.ExcReason, "call on null client") && s.arrivedWhileReturning(q) {
 				// the call was dispatched between the end of the target's
 				// implementation and the moment its Return marked the
 				// results ready: answer.Return has already stripped the cap
 				// table the pipeline caller reads
 				sig = "C06/call-not-delivered/null-client-while-returning"
-			} else if s.chainedOnQueued(q) {
-				// server/answer.go: a call pipelined on a call that is itself
-				// still queued on an unreturned answer is applied to the
-				// wrong answer (queueCaller basis off by one)
-				sig = "C06/call-not-delivered/pipeline-on-queued-call"
 			}
 			s.violate(sig, fmt.Sprintf("call uid=%x (%s -> %s) was answered %q without reaching the target capability", q.uid, q.class, q.target.RefKey(), m.ExcReason), s.log.Tail(40))
 		}
@@ -313,8 +313,8 @@ func (s *solo) planResultSources(q *peerQ) (locals []*rpcbench.LocalCap, pexps [
 				pexps = append(pexps, pe)
 			}
 		case "receiverHosted":
-			if ce := s.cexp[d.ID]; ce != nil && ce.local != nil {
-				locals = append(locals, ce.local)
+			if l := q.argLocals[q.argSlots[rc.ArgSlot]]; l != nil {
+				locals = append(locals, l)
 			}
 		}
 	}
@@ -371,11 +371,9 @@ func (s *solo) localHolders(lc *rpcbench.LocalCap) []holder {
 				continue
 			}
 		}
-		for _, d := range q.argDescs {
-			if d.Kind == "receiverHosted" {
-				if ce := s.cexp[d.ID]; ce != nil && ce.local == lc {
-					hs = append(hs, holder{kind: "param-caps", what: fmt.Sprintf("arguments of pending call uid=%x", q.uid)})
-				}
+		for i, d := range q.argDescs {
+			if d.Kind == "receiverHosted" && i < len(q.argLocals) && q.argLocals[i] == lc {
+				hs = append(hs, holder{kind: "param-caps", what: fmt.Sprintf("arguments of pending call uid=%x", q.uid)})
 			}
 		}
 	}
@@ -383,8 +381,8 @@ func (s *solo) localHolders(lc *rpcbench.LocalCap) []holder {
 		if !ac.resolved || ac.released || ac.pa == nil || ac.pa.retSpecUsed == nil {
 			continue
 		}
-		for _, ce := range ac.pa.retSpecUsed.cexps {
-			if ce != nil && ce.local == lc {
+		for _, l := range ac.pa.retSpecUsed.clocals {
+			if l != nil && l == lc {
 				hs = append(hs, holder{kind: "app-result", what: fmt.Sprintf("unreleased results of call uid=%x", ac.uid), maybe: !ac.ok || ac.canceled})
 			}
 		}
@@ -392,8 +390,8 @@ func (s *solo) localHolders(lc *rpcbench.LocalCap) []holder {
 	// unresolved calls may still have their answer pending inside the Conn
 	for _, ac := range s.calls {
 		if ac.answer() != nil && !ac.resolved && ac.pa != nil && ac.pa.returned && ac.pa.retSpecUsed != nil {
-			for _, ce := range ac.pa.retSpecUsed.cexps {
-				if ce != nil && ce.local == lc {
+			for _, l := range ac.pa.retSpecUsed.clocals {
+				if l != nil && l == lc {
 					hs = append(hs, holder{kind: "app-result", what: fmt.Sprintf("results of call uid=%x not looked at yet", ac.uid), maybe: ac.canceled})
 				}
 			}
